@@ -249,3 +249,51 @@ def alpha(e) -> str:
 def _strip_copy(node):
     from .model import _copy_without_parents
     return _copy_without_parents(node)
+
+
+_STATE_MUTATORS = ("append", "extend", "update", "setdefault", "add", "insert", "pop", "popitem", "clear", "remove", "discard", "appendleft", "sort", "reverse")
+
+
+def self_state_stores(fn, cls_methods=None, ignore_accumulators=True):
+    """[(what, line)] ways in which `fn` stores state on `self`: attribute (or element) assignment, in-place container mutation
+    of a self attribute, and the reflective forms self.__dict__ / vars(self) / setattr(self, ..).  A counter that is only ever
+    `+=`-ed and never read anywhere in the class (timing/telemetry) is not state, when ignore_accumulators."""
+    from .model import is_self_attr, parent
+    methods = list(cls_methods) if cls_methods is not None else [fn]
+
+    def read_somewhere(attr):
+        for f in methods:
+            for x in ast.walk(f):
+                if isinstance(x, ast.Attribute) and is_self_attr(x, attr) and isinstance(x.ctx, ast.Load):
+                    top = x
+                    while isinstance(parent(top), ast.Subscript) and parent(top).value is top:
+                        top = parent(top)
+                    if not (isinstance(parent(top), ast.AugAssign) and parent(top).target is top):
+                        return True
+        return False
+    out = []
+    for x in ast.walk(fn):
+        if isinstance(x, (ast.Assign, ast.AugAssign, ast.AnnAssign)):
+            tgs = x.targets if isinstance(x, ast.Assign) else [x.target]
+            for t in tgs:
+                for tt in (t.elts if isinstance(t, (ast.Tuple, ast.List)) else [t]):
+                    b = tt
+                    while isinstance(b, ast.Subscript):
+                        b = b.value
+                    if is_self_attr(b):
+                        if ignore_accumulators and isinstance(x, ast.AugAssign) and not read_somewhere(b.attr):
+                            continue
+                        out.append((f"self.{b.attr}", x.lineno))
+        if isinstance(x, ast.Call) and isinstance(x.func, ast.Attribute) and x.func.attr in _STATE_MUTATORS:
+            b = x.func.value
+            while isinstance(b, ast.Subscript):
+                b = b.value
+            if is_self_attr(b):
+                out.append((f"self.{b.attr}.{x.func.attr}()", x.lineno))
+        if isinstance(x, ast.Attribute) and x.attr == "__dict__" and isinstance(x.value, ast.Name) and x.value.id == "self":
+            out.append(("self.__dict__", x.lineno))
+        if isinstance(x, ast.Call) and isinstance(x.func, ast.Name) and x.func.id in ("setattr", "vars", "delattr") and x.args and isinstance(x.args[0], ast.Name) and x.args[0].id == "self":
+            out.append((f"{x.func.id}(self, ..)", x.lineno))
+        if isinstance(x, (ast.Global, ast.Nonlocal)):
+            out.append(("global/nonlocal", x.lineno))
+    return out
